@@ -38,8 +38,36 @@ def run_property(pid: str, tier: str, repo_root: str, only: str | None = None) -
         chk.obs = [o for o in chk.obs if o.oid == only]
     rc = chk.finish()
     if tier == 'thorough' and rc == 0 and not os.environ.get('VERIF_NO_SELFTEST'):
-        from selftest import workbench
-        rc2 = workbench.run_for(pid, jobs=int(os.environ.get('VERIF_JOBS', '16')), quiet=True)
+        # (a) sensitivity of the checker: hand-written breaking variants / benign twins and the seeded changes
+        from selftest import workbench, automutate
+        jobs = int(os.environ.get('VERIF_JOBS', '16'))
+        vs = workbench.catalogue(pid)
+        rc2 = workbench.run(vs, jobs, quiet=True)
+        # (b) mutation sweep over the functions the property is anchored in
+        seed = int(os.environ.get('VERIF_SEED', '0') or 0)
+        sw = automutate.sweep(pid, jobs=jobs, limit=int(os.environ.get('VERIF_SWEEP_LIMIT', '400')), seed=seed)
+        print(f'{pid} [thorough] variants/twins/seeded: {len(vs)} checked; mutation sweep: {sw["mutants"]} mutants, {sw["killed"]} killed, {sw["inconclusive"]} inconclusive, {sw["survived"]} survived')
+        path = os.environ.get('VERIF_EVIDENCE_OUT') or os.path.join(os.path.dirname(os.path.dirname(os.path.abspath(__file__))), 'evidence', f'{pid}.json')
+        try:
+            with open(path) as fh:
+                ev = json.load(fh)
+            ev['coverage']['checker_sensitivity'] = {
+                'variants_twins_seeded_checked': len(vs),
+                'breaking_expected_violation': sum(1 for v in vs if v['expect'] == 'violation'),
+                'benign_expected_clean': sum(1 for v in vs if v['expect'] == 'clean'),
+                'all_as_expected': rc2 == 0,
+            }
+            ev['coverage']['mutation_sweep'] = {k: sw[k] for k in ('mutants', 'killed', 'inconclusive', 'survived', 'invalid', 'error')}
+            ev['coverage']['mutation_sweep']['rule'] = 'generic AST mutation operators (comparison / arithmetic / boolean flips, constant tweaks, statement deletion, forced conditions, argument swaps, keyword removal, slice bounds) on the anchored functions; killed = the static check reports a VIOLATION; survivors are equivalent / property-irrelevant edits or blind spots (listed, not gating)'
+            ev['coverage']['mutation_sweep']['survivors_sample'] = sw['survivors'][:25]
+            ev['coverage']['evaluations'] = ev['coverage'].get('evaluations', 0) + len(vs) + sw['mutants']
+            import time as _t
+            ev['wall_s'] = round(ev.get('wall_s', 0) + (_t.time() - chk.t0), 3)
+            with open(path, 'w') as fh:
+                json.dump(ev, fh, indent=1, default=str)
+        except Exception as e:
+            print(f'ANALYSIS-ERROR property={pid} could not extend the evidence file: {e}')
+            return 2
         if rc2 != 0:
             print(f'ANALYSIS-ERROR property={pid} the checker failed its own sensitivity test (see output above)')
             return 2
